@@ -337,5 +337,5 @@ ASSUMPTIONS = ["for 'from now' forms both now and now truncated to the second ar
 
 def main(tier):
     n = 4000 if tier == "quick" else 300000
-    cap = 300 if tier == "quick" else 7200
+    cap = 300 if tier == "quick" else 1500
     return engine.run_check(PROP, "c14", tier, n, cap, "exploration", RULE, ASSUMPTIONS)
